@@ -438,7 +438,7 @@ def build_long(tier):
             ("abs", "dot", [4097]), ("rel", "dot", [65])]
     if T:
         plan = [(tag, kind, [n]) for tag in ("abs", "rel") for kind in ("dot", "updown", "nest", "run", "longseg")
-                for n in (33, 65, 257, 1025, 4097)]
+                for n in ((33, 65, 257, 1025, 4097) if tag == "abs" else (65, 4097))]       # measured <= 108 CPU s each
         plan += [("abs-slash", "dot", [n]) for n in (33, 257, 4097)] + [("abs", "lead", [17]), ("abs", "lead", [33])]
     for tag, kind, sizes in plan:
         spelling, loc = spell[tag]
@@ -452,20 +452,22 @@ def build_long(tier):
 
     # --- longroot: the stretch is in the spelling of the root ('/d/' + stretch + 'r'), the name is short
     for kind in (["dot", "updown", "nest", "run", "longseg"] if T else ["dot", "nest", "longseg"]):
-        sizes = [33, 65, 257, 1025, 4097] if T else [33, 257, 4097]
+        sizes = [33, 65, 257, 1025, 4097]
         cases = [("/d/" + STRETCH[kind](n, "r") + "r", "") for n in sizes]
         bound = ("root '/d/' + stretch %r of size n in {%s} + 'r' (= /d/r); name = c times '../' (c = 0..2) + every tail "
                  "of 0..1 characters; GET" % (kind, _sizes_text(sizes)))
         add("longroot", "longroot/%s/climb" % kind, make_climb(cases, root, 2), bound, 120, GET_COVER,
             {"stretch": kind, "sizes": sizes, "ups": 2})
         if T:
+            sizes = [65, 4097]                      # measured <= 70 CPU s
+            cases = [("/d/" + STRETCH[kind](n, "r") + "r", "") for n in sizes]
             bound = ("root '/d/' + stretch %r of size n in {%s} + 'r' (= /d/r); every name of 0..4 characters (any code "
                      "points); GET and HEAD" % (kind, _sizes_text(sizes)))
             add("longroot", "longroot/%s/t4" % kind, make_long(cases, root, 4), bound, 600, ALL_COVER,
                 {"stretch": kind, "sizes": sizes, "tail": 4})
 
     # --- deep: the root is a directory deep in the real chain; names climb with c times '../'
-    for depth in ([33, 129] if T else [65]):
+    for depth in ([65, 33, 129] if T else [65]):
         loc = ("d", "r") + ("c",) * depth
         spelling = "/" + "/".join(loc)
         ups = depth + 2
@@ -476,17 +478,18 @@ def build_long(tier):
             {"root_depth": depth, "tail": 3})
 
     # --- hole: one solver character inside a long file name / inside a long stretch
-    labelled = [("''", ""), ("'../r/'", "../r/"), ("'./' * 40", "./" * 40)]
-    if T:
-        labelled += [("'sub/../'", "sub/../"), ("'c/' * 40 + '../' * 40", "c/" * 40 + "../" * 40)]
-    fronts = [text for _, text in labelled]
     backs = ["", "/", "/../f", "/../../s"]
     positions = [0, 1, LONG_NAME // 2, LONG_NAME - 2, LONG_NAME - 1]
-    bound = ("root '/d/r'; name = front in %s + the %d-character file name with the character at one of the positions %r "
-             "replaced by any code point + back in %r; GET and HEAD" % (
-                 "{%s}" % ", ".join(label for label, _ in labelled), LONG_NAME, positions, backs))
-    add("hole", "hole/longname", make_hole("/d/r", root, fronts, LONG_FILE, positions, backs), bound, 300, ALL_COVER,
-        {"fronts": fronts, "positions": positions, "backs": backs})
+    front_sets = [("hole/longname", [("''", ""), ("'../r/'", "../r/"), ("'./' * 40", "./" * 40)])]
+    if T:
+        front_sets += [("hole/longname/fronts2", [("'sub/../'", "sub/../"), ("'c/' * 40 + '../' * 40", "c/" * 40 + "../" * 40)])]
+    for qid, labelled in front_sets:
+        fronts = [text for _, text in labelled]
+        bound = ("root '/d/r'; name = front in {%s} + the %d-character file name with the character at one of the positions "
+                 "%r replaced by any code point + back in %r; GET and HEAD" % (
+                     ", ".join(label for label, _ in labelled), LONG_NAME, positions, backs))
+        add("hole", qid, make_hole("/d/r", root, fronts, LONG_FILE, positions, backs), bound, 300, ALL_COVER,   # <= 42 CPU s
+            {"fronts": fronts, "positions": positions, "backs": backs})
     for kind, n in ([("dot", 64), ("nest", 64), ("updown", 64), ("run", 64)] if T else [("nest", 64)]):
         body = STRETCH[kind](n, "c" if kind == "nest" else "sub")
         positions = sorted({0, 1, len(body) // 2 - 1, len(body) // 2, len(body) // 2 + 1, len(body) - 2, len(body) - 1})
@@ -497,11 +500,12 @@ def build_long(tier):
             {"stretch": kind, "size": n, "positions": positions, "backs": backs2})
 
     # --- model: the stubs that make long names affordable, against what they replace
-    for kind, n in [("updown", 9), ("run", 5)] + ([("nest", 300), ("lead", 3)] if T else []):
+    for kind, n in [("updown", 9), ("run", 5)] + ([("nest", 300), ("lead", 13)] if T else []):
         front = "/d/r/" + STRETCH[kind](n, "sub")
-        add("model", "model/split/%s%d" % (kind, n), make_model(front, 4 if T else 3),
+        tmax = 4 if T and n > 9 else 3
+        add("model", "model/split/%s%d/t%d" % (kind, n, tmax), make_model(front, tmax),
             "sym_split == str.split (engine) and py_normpath == reference on '/d/r/' + stretch %r of size %d + every tail of "
-            "0..%d characters" % (kind, n, 4 if T else 3), 300, ["compared"], {"stretch": kind, "size": n})
+            "0..%d characters" % (kind, n, tmax), 300, ["compared"], {"stretch": kind, "size": n, "tail": tmax})
     return out
 
 
